@@ -429,6 +429,9 @@ fn cheetah_case(cfg: &Cfg, grp: &'static str, case: u64, rng: &mut Rng, rep: &mu
     let Some(spec) = make_spec(rng, scheme, n, t, "cheetah", 2) else { rep.harness_errors.push("C20 cheetah: no primes".into()); return; };
     let kit = match Kit::new(&spec) { Ok(k) => k, Err(e) => { rep.harness_errors.push(format!("C20 cheetah kit: {}", e)); return; } };
     let benc = if ckks { None } else { match lib(|| BatchEncoder::new(kit.ctx.clone())) { Ok(b) => Some(b), Err(p) => { rep.harness_errors.push(format!("C20 BatchEncoder::new: {}", p.0)); return; } } };
+    // history: in every other case the same key generator / context has already produced the default rotation key set (an
+    // overlapping but different set of Galois elements), as an application that uses both matrix-product methods does
+    if case % 2 == 1 { let r = lib(|| kit.keygen.create_galois_keys(false)); rep.count("history_prelude", if r.is_ok() { "rotation keys before automorphism keys" } else { "rotation keys refused" }); }
     let auto = match lib(|| kit.keygen.create_automorphism_keys(false)) { Ok(a) => a, Err(p) => { rep.harness_errors.push(format!("C20 create_automorphism_keys: {}", p.0)); return; } };
     let sname = if ckks { "CKKS" } else { "BFV" };
     for obj in OBJS { for pack in [false, true] {
@@ -626,6 +629,7 @@ fn bolt_case(cfg: &Cfg, grp: &'static str, case: u64, rng: &mut Rng, rep: &mut R
     let Some(spec) = make_spec(rng, SchemeType::BFV, n, t, "bolt", data_primes) else { rep.harness_errors.push("C20 bolt: no primes".into()); return; };
     let kit = match Kit::new(&spec) { Ok(k) => k, Err(e) => { rep.harness_errors.push(format!("C20 bolt kit: {}", e)); return; } };
     let Some(be) = kit.batch.as_ref() else { rep.harness_errors.push(format!("C20 bolt: batching not enabled for t={} N={}", t, n)); return; };
+    if case % 2 == 1 { let r = lib(|| kit.keygen.create_automorphism_keys(false)); rep.count("history_prelude", if r.is_ok() { "automorphism keys before rotation keys" } else { "automorphism keys refused" }); }
     let keys = lib(|| (kit.keygen.create_galois_keys(false), kit.keygen.create_relin_keys(false)));
     let (gk, rk) = match keys { Ok(k) => k, Err(p) => { rep.harness_errors.push(format!("C20 bolt keys: {}", p.0)); return; } };
     let helper = match lib(|| Bolt::new(kind, m, r, k, n)) {
